@@ -501,6 +501,10 @@ let run (cmd : string) (args : string list) : string =
     let iters = if depth = "-" then 100000 else int_of_string depth in
     if workers <> "1" then "model-single-worker-only" else
     let outs = L.mapi (fun i fen ->
+      (* "fen@d" overrides the depth limit for this search of the chain *)
+      let (fen, iters) = match String.rindex_opt fen '@' with
+        | Some k -> (String.sub fen 0 k, int_of_string (String.sub fen (k + 1) (String.length fen - k - 1)))
+        | None -> (fen, iters) in
       match model_state fen with
       | None -> "badfen"
       | Some st ->
